@@ -301,6 +301,100 @@ def make_o2(ncfg):
     return o2
 
 
+# ------------------------------------------------------------------ O3: dependencies declared on the component type itself
+IMPL_ROLES = ["none", "required", "optional"]
+
+
+class TypeWorld(object):
+    """a component type whose class declares implicit `requires` / `optional` (documented on ComponentType), and `ncomp`
+    components of that type, each adding its own decorator arguments"""
+
+    def __init__(self, impl_req, impl_opt, roles_per_comp, dep_outcome, dep_value):
+        self.calls = {}
+        self.deps = []
+        for i in range(4):
+            def dep_body(_i=i):
+                if dep_outcome(_i) == "value":
+                    return dep_value(_i)
+                raise SkipComponent()
+            dep_body.__name__ = dep_body.__qualname__ = "d%d" % i
+            dep_body.__symx_order__ = i
+            self.deps.append(ctype()(dep_body))
+        attrs = {}
+        if impl_req:
+            attrs["requires"] = [self.deps[0]]
+        if impl_opt:
+            attrs["optional"] = [self.deps[1]]
+        self.itype = type("itype", (dr.ComponentType,), attrs)
+        self.xs = []
+        self.decls = []
+        for c, roles in enumerate(roles_per_comp):
+            pos = [self.deps[2 + j] for j, r in enumerate(roles) if r == "required"]
+            opt = [self.deps[2 + j] for j, r in enumerate(roles) if r == "optional"]
+
+            def x(*args, _c=c):
+                self.calls.setdefault(_c, []).append(args)
+                return ("x%d" % _c,)
+            x.__name__ = x.__qualname__ = "x%d" % c
+            x.__symx_order__ = 90 + c
+            self.xs.append(self.itype(*pos, optional=opt)(x) if opt else self.itype(*pos)(x))
+            decl = ([0] if impl_req else []) + [2 + j for j, r in enumerate(roles) if r == "required"]
+            optl = ([1] if impl_opt else []) + [2 + j for j, r in enumerate(roles) if r == "optional"]
+            self.decls.append((decl, optl))
+
+
+def judge_types(w, present, values, broker, eq=lambda a, b: a == b):
+    bad = []
+    for c, (decl, optl) in enumerate(w.decls):
+        fires, flat, missing = expected(decl, optl, present)
+        calls = w.calls.get(c, [])
+        if len(calls) != (1 if fires else 0):
+            bad.append("component %d invoked %d times, expected %d (declared %s + optional %s)" % (c, len(calls), 1 if fires else 0, decl, optl))
+            continue
+        if fires:
+            args = calls[0]
+            ok = len(args) == len(flat)
+            if ok:
+                for a, j in zip(args, flat):
+                    ok = ok and ((a is not None and eq(a, values[j])) if present[j] else a is None)
+            if not ok:
+                bad.append("component %d received %d arguments, its declared dependencies are %s (type-level ones first)" % (c, len(args), flat))
+        else:
+            got = broker.missing_requirements.get(w.xs[c])
+            exp_missing = ([w.deps[i] for i in missing[0]], [[w.deps[i] for i in g] for g in missing[1]])
+            if got is None or tuple(got) != exp_missing:
+                bad.append("component %d: missing report %r" % (c, got))
+        if set(dr.get_dependencies(w.xs[c])) != set(w.deps[j] for j in decl + optl):
+            bad.append("component %d: dependency set differs from its declaration %s" % (c, decl + optl))
+    return bad
+
+
+def make_o3(ncomp):
+    def o3(en):
+        with REG:
+            impl_req, impl_opt = en.flag("impl_req"), en.flag("impl_opt")
+            roles = [[IMPL_ROLES[en.choice("role_%d_%d" % (c, j), 3)] for j in range(2)] for c in range(ncomp)]
+            outcomes = [["value", "skip"][en.choice("oc%d" % i, 2)] for i in range(4)]
+            present = [o == "value" for o in outcomes]
+            values = [en.fresh_int("v%d" % i) for i in range(4)]
+            w = TypeWorld(impl_req, impl_opt, roles, lambda i: outcomes[i], lambda i: values[i])
+            case = lambda mv: {"kind": "types", "impl_req": impl_req, "impl_opt": impl_opt, "roles": roles, "outcomes": outcomes}  # noqa
+            en.note_sample(case)
+            broker = dr.run(w.xs)
+            eqs = []
+
+            def eq(a, b):
+                if isinstance(a, core.SInt) or isinstance(b, core.SInt):
+                    eqs.append(a == b)
+                    return True
+                return a == b
+            bad = judge_types(w, present, values, broker, eq)
+            en.must_hold(not bad, "args-bound", case, detail=bad)
+            for c_ in eqs:
+                en.must_hold(c_, "args-bound", case, detail="argument value differs from the dependency's value")
+    return o3
+
+
 def obligations(tier):
     thorough = tier == "thorough"
     enc = [dr.ComponentType.__init__, dr.ComponentType.invoke, dr.ComponentType.get_missing_dependencies,
@@ -330,6 +424,11 @@ def obligations(tier):
                                desc="3 dependencies, 4 roles, present/absent outcomes",
                                bounds={"dependencies": 3, "roles": ROLES[:4], "outcomes": 2, "types": TYPES}, encoded=enc, budget_s=90,
                                replay="fires", check_sample=True))
+    obls.append(Obligation("O3-type-level", make_o3(3 if thorough else 2), ["args-bound"],
+                           desc="dependencies declared on the component type (class-level requires / optional) combined with decorator arguments, for several components of the same type created one after the other",
+                           bounds={"components of the type": 3 if thorough else 2, "type-level": "requires [d0] or none, optional [d1] or none", "decorator": "each of d2, d3 required / optional / not used, per component",
+                                   "outcomes": ["value", "skip"], "values": "unconstrained symbolic ints"},
+                           encoded=enc[:4], budget_s=300 if thorough else 60, replay="types", check_sample=True))
     obls.append(Obligation("O2-config", make_o2(3 if thorough else 2), ["config-enabled"],
                            desc="apply_default_enabled + apply_configs after an arbitrary earlier history of set_enabled / is_enabled on 3 components",
                            bounds={"components": 3, "config entries": 3 if thorough else 2, "name pool": 6, "enabled values": "symbolic booleans"},
@@ -357,6 +456,11 @@ def validate(tier):
 
 
 def _native(case):
+    if case.get("kind") == "types":
+        values = [100 + 10 * i for i in range(4)]
+        w = TypeWorld(case["impl_req"], case["impl_opt"], case["roles"], lambda i: case["outcomes"][i], lambda i: values[i])
+        broker = dr.run(w.xs)
+        return [("args-bound", b) for b in judge_types(w, [o == "value" for o in case["outcomes"]], values, broker)]
     k = case["k"]
     values = [[100 + 10 * i, 101 + 10 * i] if case["listvals"][i] else 100 + 10 * i for i in range(k)]
     sc, broker = run_scenario(case["type"], case["decl"], case["opt"], k, case["outcomes"], values, enabled=case["enabled"])
@@ -367,7 +471,7 @@ def _native(case):
 
 def replay(rec):
     case = rec["case"]
-    if "decl" in case:
+    if "decl" in case or case.get("kind") == "types":
         bad = _native(case)
         return {"reproduced": bool(bad), "detail": bad, "signature": rec["label"]}
     if "cfgs" in case:
